@@ -19,6 +19,9 @@ if envstr("VF_KEYS", ""):
 KI = envint("VF_KI", 0)
 KI2 = envint("VF_KI2", 1)
 QPRE = envstr("VF_QPRE", "")                # concrete pairs in front of the symbolic ones ("k=v&")
+SEP = envstr("VF_SEP", "&")                 # pair separator: '&' or '?' ("all ? can be used as &")
+QLEAD = envstr("VF_QLEAD", "")              # leading / trailing separators, which the query syntax ignores
+QTRAIL = envstr("VF_QTRAIL", "")
 ENTRY = envstr("VF_ENTRY", "string")        # "string": Sid(base?query) ; "get_with": base.get_with(query=..)
 
 
@@ -60,7 +63,7 @@ def apply1(v: str) -> bool:
     post: _
     """
     base = Sid(BASE)
-    q = QPRE + KEYS[KI] + "=" + v
+    q = QLEAD + QPRE + KEYS[KI] + "=" + v + QTRAIL
     return _check(base, q, _apply(base, q))
 
 
@@ -71,7 +74,7 @@ def apply2(v: str, w: str) -> bool:
     post: _
     """
     base = Sid(BASE)
-    q = QPRE + KEYS[KI] + "=" + v + "&" + KEYS[KI2] + "=" + w
+    q = QLEAD + QPRE + KEYS[KI] + "=" + v + SEP + KEYS[KI2] + "=" + w + QTRAIL
     return _check(base, q, _apply(base, q))
 
 
